@@ -511,7 +511,7 @@ fn main() {
             o.carousel = Some(CarouselSpec::DelayMs(300));
             let script = vec![(When::Start, Op::Add(0)), (When::Start, Op::Publish)];
             let n = ((dur * 3 + 4) * 1000 / 50) as usize;
-            let opts = ScriptOpts { instants: (0..n as u64).map(|k| offset_ms + k * 50).collect(), drain: true, max_packets: 400_000, max_per_instant: 20_000, stop_when_empty: false };
+            let opts = ScriptOpts { instants: (0..n as u64).map(|k| offset_ms + k * 50).collect(), drain: true, max_packets: 400_000, max_per_instant: 20_000, stop_when_empty: false, us: false };
             let mut cr = CaseResult::default();
             match util::guarded(|| run_script(&spec, &[o], &script, &opts)) {
                 Ok(Ok(run)) => {
